@@ -529,6 +529,43 @@ void comp_sweep(mc::Reporter& r, Ctx& c, char const* type, CompSpace const& sp, 
     r.count("distinct_nontrivial", nontrivial);
 }
 
+/// EVERY month delta of the representable span, not a lattice (added after seeded breakage
+/// c11_year_month_plus_months_reciprocal: a multiply-shift division by 12, exact only below 2^17, was used for month
+/// indices up to 2^18 - wrong for 1 delta in 12 inside [131075, 262139], none of them a round number).
+/// year_month +/- months from the start years {-32767, 0, 32767} x 12 start months x every delta whose result year is
+/// representable; year and month of the result against std::chrono (and the closed form floor_div).
+void job_year_month_every_delta(mc::Reporter& r, int y0)
+{
+    std::uint64_t ev = 0, nt = 0;
+    long long const span = 786420; // 65535 years
+    for (unsigned m0 = 1; m0 <= 12; ++m0) {
+        ec::year_month const e0{ec::year{y0}, ec::month{m0}};
+        sc::year_month const s0{sc::year{y0}, sc::month{m0}};
+        for (long long k = -span; k <= span; ++k) {
+            long long const idx = (long long)m0 - 1 + k;
+            long long const ry  = (long long)y0 + floor_div(idx, 12);
+            if (ry < -32767 || ry > 32767) { continue; }
+            auto const dk = static_cast<int>(k);
+            auto const ea = e0 + ec::months{dk};
+            auto const sa = s0 + sc::months{dk};
+            auto const eb = e0 - ec::months{-dk};
+            ev += 2;
+            if (idx < 0 || idx > 11) { ++nt; }
+            bool const ok_a = int(ea.year()) == int(sa.year()) && unsigned(ea.month()) == unsigned(sa.month());
+            bool const ok_b = int(eb.year()) == int(sa.year()) && unsigned(eb.month()) == unsigned(sa.month());
+            if (!ok_a || !ok_b) {
+                std::string const cls = cat(k > 100000 || k < -100000 ? "delta_huge+" : "", idx < 0 ? "month_borrow" : (idx > 11 ? "month_carry" : "general"), unsigned(sa.month()) == 12 ? "+result_december" : "");
+                r.violation("C11", !ok_a ? "year_month::operator+(months)" : "year_month::operator-(months)", cls, cat("year_month{", y0, ",", m0, "} ", !ok_a ? "+ months{" : "- months{", !ok_a ? k : -k, "}"),
+                    cat("tetl ", int((!ok_a ? ea : eb).year()), "/", unsigned((!ok_a ? ea : eb).month()), " std ", int(sa.year()), "/", unsigned(sa.month())));
+            }
+        }
+        r.outcome(mc::hash_str(cat(y0, "/", m0)));
+    }
+    r.sample(cat("year_month{", y0, ", 1..12} +/- months{k} for EVERY k in [-786420, 786420] with a representable result year"));
+    r.count("evaluations", ev);
+    r.count("distinct_nontrivial", nt);
+}
+
 void job_year_month(mc::Reporter& r)
 {
     Ctx c(r);
@@ -752,6 +789,7 @@ int main(int argc, char** argv)
     m.job("arith/day", both, job_day);
     m.job("arith/year", both, job_year);
     m.job("arith/year_month", both, job_year_month);
+    for (int y0 : {-32767, 0, 32767}) { m.job(cat("arith/year_month/every-delta/from-", y0), both, [=](mc::Reporter& r) { job_year_month_every_delta(r, y0); }); }
     m.job("arith/year_month_day", both, job_ymd);
     m.job("arith/year_month_day_last", both, job_ymdl);
     m.job("arith/year_month_weekday", both, job_ymw);
